@@ -445,6 +445,19 @@ func c12Gen(rng *verifsim.RNG, idx int, tier string) *Plan {
 			}
 			p.Actions = append(p.Actions, Action{At: t + jitter(rng), Kind: "ra", If: "eth0", Src: "fe80::5:1", RA: peer()})
 		}
+		if rng.Bool(0.4) {
+			// the build of our own RA made to check a neighbour is stuck in its
+			// address listing while a solicited RA is built and sent from the same
+			// stanzas: the check is still made against the whole of our RA
+			p.Class += "+overlapping-build"
+			t += int64(rng.Dur(time.Second, 3*time.Second))
+			p.Faults = append(p.Faults, Fault{Seam: "rtnl.addr", If: "eth0", From: t, Count: 1, Hold: "hv"})
+			p.Actions = append(p.Actions,
+				Action{At: t + 1000, Kind: "ra", If: "eth0", Src: "fe80::5:1", RA: peer()},
+				rsAction(t+100*nsMs, hostAddr(0)),
+				Action{At: t + 900*nsMs, Kind: "release", Hold: "hv"})
+			t += nsSec
+		}
 		p.Horizon = t + 2*nsSec
 	case 0:
 		// twin: a second real CoreRAD with the same configuration on the same link
